@@ -38,6 +38,22 @@ Proof.
 Qed.
 Print Assumptions C02_closed_form_trio_inverts.
 
+(* batch branches, rows independent: a generic row stacked with FIXED rows (Hughes: the exact half-turn diag(1,-1,-1); Chiaverini: the 120-degree cyclic permutation; plus the identity),
+   in first position of a 2-stack and in last position of a 3-stack, is converted exactly as alone *)
+Theorem C02_batch_rows_independent : forall w x y z, w*w + x*x + y*y + z*z = 1 -> 1/100000000 < Rabs w ->
+  let r := [Rsgn w * w; Rsgn w * x; Rsgn w * y; Rsgn w * z] in
+  C02_hughes_mixed_gh_q_R w x y z = Val r /\ C02_hughes_mixed_hig_q_R w x y z = Val r /\
+  C02_chiaverini_mixed_gh_q_R w x y z = Val r /\ C02_chiaverini_mixed_hig_q_R w x y z = Val r /\
+  C02_hughes_batch_q_R w x y z = Val r /\ C02_chiaverini_batch_q_R w x y z = Val r.
+Proof.
+  intros w x y z H Hw.
+  assert (Hw0 : w <> 0) by (intros Z; rewrite Z, Rabs_R0 in Hw; lra).
+  destruct (hughes_mixed_inverts w x y z H Hw) as [A B]. destruct (chiaverini_mixed_inverts w x y z H Hw0) as [C D].
+  split; [exact A|]. split; [exact B|]. split; [exact C|]. split; [exact D|].
+  split; [exact (hughes_batch_inverts w x y z H Hw)|exact (chiaverini_batch_inverts w x y z H Hw0)].
+Qed.
+Print Assumptions C02_batch_rows_independent.
+
 (* Chiaverini and Sarabandi need only w <> 0 *)
 Theorem C02_chiaverini_sarabandi_nonzero_scalar : forall w x y z eta, w*w + x*x + y*y + z*z = 1 -> w <> 0 -> eta < 3 ->
   C02_chiaverini_q_R w x y z = Val [Rsgn w * w; Rsgn w * x; Rsgn w * y; Rsgn w * z] /\
